@@ -92,6 +92,10 @@ def expected_objects(prog, outs):
             if op == 'frame':
                 e.assign.setdefault('channels', {})['value'] = s['channels']
             objs[ci] = e
+        elif op == 'set_origin' and o[0] == 'ok':
+            e = objs.get(s['obj'])
+            if e is not None and s['raw'].get('t') == 'int':
+                e.origin = s['raw']['v']
         elif op == 'assign' and o[0] == 'ok':
             e = objs.get(s['obj'])
             if e is not None:
